@@ -322,10 +322,44 @@ def gen_graph_paths(ck, module, cfg, want_vars, step_fn, mode, seed, limit=None,
     return r, rows, {'nodes': len(g.nodes), 'edges': g.nedges, 'paths_total': total}
 
 
-def run_shards(ck, subcmd, rows, extra_args=None, shards=None, timeout=1800, tag='sh'):
+def _read_rows(outp):
+    rows_out = []
+    if os.path.exists(outp):
+        for line in open(outp, errors='replace'):
+            line = line.strip()
+            if line:
+                try:
+                    rows_out.append(json.loads(line))
+                except ValueError:
+                    pass
+    return rows_out
+
+
+def _run_one_alone(mxh, subcmd, row, extra_args, scratch, tag, limit):
+    """-> 'done' | 'died' | 'hung' for one row in a process of its own"""
+    inp = os.path.join(scratch, '%s-alone-in.ndjson' % tag)
+    outp = os.path.join(scratch, '%s-alone-out.ndjson' % tag)
+    write_ndjson(inp, [row])
+    if os.path.exists(outp):
+        os.remove(outp)
+    p = subprocess.Popen([mxh, subcmd, '-in', inp, '-out', outp] + (extra_args or []), stdout=subprocess.DEVNULL, stderr=subprocess.DEVNULL)
+    try:
+        p.wait(timeout=limit)
+    except subprocess.TimeoutExpired:
+        p.kill()
+        p.wait()
+        return 'hung'
+    return 'done' if any('status' in x for x in _read_rows(outp)) else 'died'
+
+
+def run_shards(ck, subcmd, rows, extra_args=None, shards=None, timeout=1800, tag='sh', stall=420):
     """Run `mxh <subcmd> -in X -out Y` over rows in parallel processes.
     Returns (results, crashed) where crashed is a list of (stderr_tail, unfinished_rows)
-    for shards whose process died."""
+    for shards whose process died.
+    A shard that writes nothing for `stall` seconds (or runs into `timeout`) is stopped; its unfinished rows (those
+    marked as started, if the sub-command marks them) are then run one per process: a row that does not finish within
+    300 s, twice, is a hang of the real code on that row and is reported as a violation; if no row reproduces it the
+    stop was the machine's fault (Infra)."""
     mxh = build_mxh()
     shards = shards or min(NCPU, max(1, len(rows) // 50))
     procs = []
@@ -335,33 +369,63 @@ def run_shards(ck, subcmd, rows, extra_args=None, shards=None, timeout=1800, tag
             continue
         inp = os.path.join(ck.scratch, '%s-in-%d.ndjson' % (tag, s))
         outp = os.path.join(ck.scratch, '%s-out-%d.ndjson' % (tag, s))
+        errp = os.path.join(ck.scratch, '%s-err-%d.txt' % (tag, s))
         write_ndjson(inp, part)
-        procs.append((subprocess.Popen([mxh, subcmd, '-in', inp, '-out', outp] + (extra_args or []),
-                                       stdout=subprocess.PIPE, stderr=subprocess.PIPE), outp, part))
+        if os.path.exists(outp):
+            os.remove(outp)
+        ef = open(errp, 'wb')
+        procs.append({'p': subprocess.Popen([mxh, subcmd, '-in', inp, '-out', outp] + (extra_args or []),
+                                            stdout=subprocess.DEVNULL, stderr=ef), 'ef': ef, 'errp': errp, 'outp': outp, 'part': part,
+                      'size': -1, 'last': time.time(), 'stopped': None})
+    t0 = time.time()
+    while any(x['p'].poll() is None for x in procs):
+        time.sleep(0.5)
+        now = time.time()
+        for x in procs:
+            if x['p'].poll() is not None:
+                continue
+            try:
+                sz = os.path.getsize(x['outp'])
+            except OSError:
+                sz = 0
+            if sz != x['size']:
+                x['size'], x['last'] = sz, now
+            if now - x['last'] > stall or now - t0 > timeout:
+                x['stopped'] = 'no output for %d s' % stall if now - x['last'] > stall else 'time limit of %d s' % timeout
+                x['p'].kill()
     res = []
     crashed = []
-    for p, outp, part in procs:
-        try:
-            _, err = p.communicate(timeout=timeout)
-        except subprocess.TimeoutExpired:
-            for q, _, _ in procs:
-                q.kill()
-            raise Infra('%s shard did not finish within %ds (machine overloaded?)' % (subcmd, timeout))
-        rows_out = []
-        if os.path.exists(outp):
-            for line in open(outp):
-                line = line.strip()
-                if line:
-                    try:
-                        rows_out.append(json.loads(line))
-                    except ValueError:
-                        pass
-        done = [x for x in rows_out if 'status' in x]
+    stopped = []
+    for x in procs:
+        x['p'].wait()
+        x['ef'].close()
+        err = open(x['errp'], 'rb').read()
+        rows_out = _read_rows(x['outp'])
+        done = [r for r in rows_out if 'status' in r]
         res += done
-        if p.returncode != 0:
-            fin = set(x['id'] for x in done)
-            started = set(x['start'] for x in rows_out if 'start' in x)
-            unfinished = [r for r in part if r['id'] not in fin]
-            inflight = [r for r in unfinished if r['id'] in started]
+        fin = set(r['id'] for r in done)
+        started = set(r['start'] for r in rows_out if 'start' in r)
+        unfinished = [r for r in x['part'] if r['id'] not in fin]
+        inflight = [r for r in unfinished if r['id'] in started]
+        if x['stopped']:
+            stopped.append((x['stopped'], inflight or unfinished))
+        elif x['p'].returncode != 0:
             crashed.append({'stderr': err.decode('utf-8', 'replace')[-3000:], 'unfinished': unfinished, 'inflight': inflight})
+    if stopped:
+        hung = []
+        tried = 0
+        for why, cand in stopped:
+            for row in cand[:48]:
+                tried += 1
+                if _run_one_alone(mxh, subcmd, row, extra_args, ck.scratch, tag, 300) == 'hung' and \
+                        _run_one_alone(mxh, subcmd, row, extra_args, ck.scratch, tag, 300) == 'hung':
+                    hung.append(row)
+                    break
+        for row in hung:
+            desc = json.dumps(row, sort_keys=True, default=str)
+            ck.violation('hang:%s:%s' % (subcmd, desc[:160]),
+                         'the real code does not return on this case (`mxh %s` stopped: %s; the case alone exceeded 300 s twice)' % (subcmd, stopped[0][0]),
+                         {'row': row})
+        raise Infra('%s shard stopped (%s); %s' % (subcmd, stopped[0][0],
+                    '%d case(s) hang when run alone' % len(hung) if hung else 'none of %d unfinished cases hangs alone (machine overloaded?)' % tried))
     return res, crashed
